@@ -211,13 +211,17 @@ uint64_t vf_count_get(const char *name)
 
 /* ------------------------------------------------- site coverage + perturb */
 #define VF_SITE_TAB 1024
-typedef struct vf_site { const char *func; int line; int op; uint32_t hash; uint64_t hits; } vf_site_t;
+typedef struct vf_site { const char *func; int line; int op; uint32_t hash; uint64_t hits; int is_wait; } vf_site_t;
 typedef struct vf_site_tab {
 	struct vf_site_tab *next;
 	uint64_t total;                 /* library atomics executed by this thread (written by the owner only) */
 	vf_site_t e[VF_SITE_TAB];
 } vf_site_tab_t;
 static vf_site_tab_t *_Atomic g_site_tabs;
+static int g_futexstorm_hz;
+static _Atomic uintptr_t g_fx_ring[64];
+static _Atomic unsigned g_fx_n;
+static _Atomic uint64_t g_fx_sent;
 
 typedef struct {
 	vf_site_tab_t *tab;
@@ -268,6 +272,7 @@ static vf_site_t *site_lookup(const char *func, int line, int op)
 		if (!s->func) {
 			s->line = line; s->op = op; s->hash = site_hash(func, line, op);
 			s->hits = 0;
+			s->is_wait = strstr(func, "wait") != NULL;
 			/* publish func last: readers (merge) only look at entries with func set */
 			__atomic_store_n(&s->func, func, __ATOMIC_RELEASE);
 			return s;
@@ -396,6 +401,8 @@ static void vf_atomic_hook(int phase, int op, const volatile void *addr,
 		s = site_lookup(func, line, op);
 		if (s) s->hits++;
 		if (tl.tab) tl.tab->total++;
+		/* --futexstorm: remember the words the library's wait loops look at */
+		if (g_futexstorm_hz && s && s->is_wait && op == 0) atomic_store_explicit(&g_fx_ring[atomic_fetch_add_explicit(&g_fx_n, 1, memory_order_relaxed) & 63], (uintptr_t)addr, memory_order_relaxed);
 	}
 	const vf_profile_t *p = &g_prof;
 	if (p->kind != VF_P_OFF) {
@@ -644,8 +651,9 @@ static struct {
 	_Atomic uint64_t epoch;
 	char ctx[128];
 	unsigned idle_ok_ms;
+	int samples;                /* consecutive all-asleep, library-idle samples (0.5 s apart) that make a stuck witness */
 	pthread_mutex_t mtx;
-} g_wd = { .mtx = PTHREAD_MUTEX_INITIALIZER };
+} g_wd = { .mtx = PTHREAD_MUTEX_INITIALIZER, .samples = 20 };
 static pthread_t g_wd_thread;
 static int g_wd_tid;
 
@@ -767,6 +775,7 @@ static void *watchdog_main(void *arg)
 		if (!idle_since_ns) idle_since_ns = now;
 		pthread_mutex_lock(&g_wd.mtx);
 		unsigned idle_ok = g_wd.idle_ok_ms;
+		int need_samples = g_wd.samples;
 		char ctx[128];
 		snprintf(ctx, sizeof(ctx), "%s", g_wd.ctx);
 		pthread_mutex_unlock(&g_wd.mtx);
@@ -803,7 +812,7 @@ static void *watchdog_main(void *arg)
 			all_asleep = 0;
 		}
 		if (!all_asleep) { asleep_samples = 0; nr = 0; continue; }
-		if (++asleep_samples >= 20) {
+		if (++asleep_samples >= need_samples) {
 			dump_stuck("stuck", ctx, ts, n);
 			vf_finish();
 			_exit(3);
@@ -812,11 +821,14 @@ static void *watchdog_main(void *arg)
 	return NULL;
 }
 
-void vf_watch_begin(const char *ctx, unsigned idle_ok_ms)
+void vf_watch_begin(const char *ctx, unsigned idle_ok_ms) { vf_watch_begin_n(ctx, idle_ok_ms, 20); }
+
+void vf_watch_begin_n(const char *ctx, unsigned idle_ok_ms, int samples)
 {
 	pthread_mutex_lock(&g_wd.mtx);
 	snprintf(g_wd.ctx, sizeof(g_wd.ctx), "%s", ctx);
 	g_wd.idle_ok_ms = idle_ok_ms;
+	g_wd.samples = samples;
 	pthread_mutex_unlock(&g_wd.mtx);
 	atomic_fetch_add(&g_wd.epoch, 1);
 	atomic_store(&g_wd.armed, 1);
@@ -912,6 +924,33 @@ static void *sigstorm_main(void *arg)
 }
 uint64_t vf_signals_sent(void) { return atomic_load(&g_sig_sent); }
 
+/* ------------------------------------------------------------ stray futex wake-ups
+ * --futexstorm=<Hz>: a thread issues FUTEX_WAKE on the words the library's wait loops were last seen
+ * reading (thread events of sync waiters, group generations, once gates). futex(2): "a return value
+ * of 0 can mean a spurious wake-up"; a stale wake from an earlier hand-off on a reused stack word
+ * is the natural source. A woken waiter that does not re-check its condition returns early. */
+#include <linux/futex.h>
+static void *futexstorm_main(void *arg)
+{
+	(void)arg;
+	vf_rng_t r; vf_rng_seed(&r, vf_opts.seed, 0xf07e);
+	for (;;) {
+		if (!atomic_load(&g_sig_stop)) {
+			uintptr_t a = atomic_load_explicit(&g_fx_ring[vf_rnd_n(&r, 64)], memory_order_relaxed);
+			if (a) {
+				syscall(SYS_futex, (void *)(a & ~(uintptr_t)3), FUTEX_WAKE | FUTEX_PRIVATE_FLAG, 0x7fffffff, NULL, NULL, 0);
+				syscall(SYS_futex, (void *)((a & ~(uintptr_t)7) + 4), FUTEX_WAKE | FUTEX_PRIVATE_FLAG, 0x7fffffff, NULL, NULL, 0);
+				atomic_fetch_add(&g_fx_sent, 1);
+			}
+		}
+		long period = 1000000000l / g_futexstorm_hz;
+		struct timespec ts = { 0, (long)vf_rnd_n(&r, (uint32_t)(2 * period)) + 1 };
+		if (ts.tv_nsec >= 1000000000l) ts.tv_nsec = 999999999l;
+		nanosleep(&ts, NULL);
+	}
+	return NULL;
+}
+
 void vf_init(int argc, char **argv, const char *harness)
 {
 	g_harness = harness;
@@ -956,6 +995,11 @@ void vf_init(int argc, char **argv, const char *harness)
 		pthread_t st;
 		if (pthread_create(&st, NULL, sigstorm_main, NULL)) vf_fail("cannot start the signal thread");
 	}
+	g_futexstorm_hz = (int)vf_opt_long("futexstorm", 0);
+	if (g_futexstorm_hz > 0) {
+		pthread_t ft;
+		if (pthread_create(&ft, NULL, futexstorm_main, NULL)) vf_fail("cannot start the futex thread");
+	}
 	/* observation (and TSO annotation) is always on; delays only per profile */
 	g_prof.kind = VF_P_OFF;
 	_dispatch_verif_atomic_hook = vf_atomic_hook;
@@ -980,6 +1024,7 @@ int vf_finish(void)
 		fprintf(stdout, "%s\"%s\":%llu", i ? "," : "", g_ctrs[i].name, (unsigned long long)atomic_load(&g_ctrs[i].v));
 	}
 	if (g_sigstorm_hz > 0) fprintf(stdout, "%s\"signals_delivered\":%llu", n ? "," : "", (unsigned long long)atomic_load(&g_sig_sent));
+	if (g_futexstorm_hz > 0) fprintf(stdout, "%s\"stray_futex_wakes\":%llu", (n || g_sigstorm_hz > 0) ? "," : "", (unsigned long long)atomic_load(&g_fx_sent));
 	fputs("},", stdout);
 	vf_sites_emit_json(stdout);
 	fputs("}\n", stdout);
